@@ -335,7 +335,10 @@ SContact(s, l) ==
 SDone(s) ==
   /\ spc[s] \in {"failing", "running"}
   /\ spc' = [spc EXCEPT ![s] = "done"]
-  /\ UNCHANGED <<envVars, mgrVars, tickVars, loopVars, rootVars, scert, sgen, sknown, scont, sfloor>>
+  \* the call is over: nothing of it is remembered
+  /\ sgen' = [sgen EXCEPT ![s] = 0] /\ sknown' = [sknown EXCEPT ![s] = FALSE] /\ scont' = [scont EXCEPT ![s] = {}]
+  /\ sfloor' = [sfloor EXCEPT ![s] = 0]
+  /\ UNCHANGED <<envVars, mgrVars, tickVars, loopVars, rootVars, scert>>
 
 (* -------------------------------- next-state -------------------------------- *)
 Env == (\E v \in Versions : Publish(v)) \/ FailNext \/ Advance \/ Cancel
@@ -429,7 +432,7 @@ InitImpliesActive == initSent > 0 => active # 0
 
 \* UsesActive: every log a submission contacts is an eligible log of the list version whose distributor it read, and
 \* that distributor is not older than the one that was active when the call was made
-UsesActive == \A s \in Subs : spc[s] \in {"read", "running", "done"} /\ sgen[s] # 0 =>
+UsesActive == \A s \in Subs : spc[s] \in {"read", "running"} =>
                  /\ sgen[s] >= sfloor[s] /\ sgen[s] <= active /\ Good(sgen[s])
                  /\ scont[s] \subseteq Eligible(VersionOf(sgen[s]), scert[s], sknown[s])
                  /\ \A l \in scont[s] : LogState[VersionOf(sgen[s])][l] = "usable"
